@@ -53,7 +53,8 @@ class Spec(core.PropSpec):
                     ops.append(["clobber", ro.choice(["A", "B"]), ro.choice(["py", "np", "torch"]), ro.randint(0, 999)])
                 ops.append(["call"])
         return dict(spec=spec, seed=ro.choice([0, 1, 7, ro.randint(0, 2 ** 31 - 1)]), ambA=st("amb").getrandbits(30),
-                    ambB=st("amb").getrandbits(30), ks=[ro.randint(0, 9) for _ in range(6)], ops=ops)
+                    ambB=st("amb").getrandbits(30), ks=[ro.randint(0, 9) for _ in range(6)], ops=ops,
+                    variants=[ro.choice([0, 0, 0, 1, 2, 3, 4]) for _ in range(6)])
 
     def shrink_candidates(self, plan):
         for s in C.spec_candidates(plan["spec"]):
@@ -139,18 +140,36 @@ class Spec(core.PropSpec):
                     if not injected:
                         continue
                     k = plan["ks"][j % len(plan["ks"])]
+                    var = (plan.get("variants") or [0])[j % len(plan.get("variants") or [0])]
                     res = {}
+                    errs = {}
                     for side in "AB":
                         with procs[side].on_cpu():
                             before = save_amb()
                             ctx = {}
-                            y = T[side](C.clone(C.make_input(dom, k)), ctx)
+                            try:
+                                y = T[side](C.clone(C.make_input(dom, k, var)), ctx)
+                            except Exception as e:
+                                if var == 0:
+                                    raise
+                                errs[side] = type(e).__name__
+                                y = None
                             after = save_amb()
                         res[side] = (y, ctx)
                         if not amb_equal(before, after):
                             which = [n for n, a, b in (("python", before[0], after[0]), ("numpy", str(before[1]), str(after[1])),
                                                        ("torch", before[2].tolist(), after[2].tolist())) if a != b]
                             vio.append(("C07:global-rng-consumed", f"call {j} on replica {side} advanced the global {which} RNG"))
+                    if errs:
+                        # a non-standard input (size / channels / mode) that the transform does not accept is outside the
+                        # property - as long as both replicas refuse it alike
+                        if errs.get("A") != errs.get("B"):
+                            vio.append(("C07:replicas-diverge", f"joint call {j} on input variant {var}: one replica raised {errs}, the other did not"))
+                        out.count("input_variant_refused")
+                        j += 1
+                        continue
+                    if var:
+                        out.count("input_variant_accepted")
                     n_joint += 1
                     out.count("logical:joint_calls")
                     hv = h(res["A"])
